@@ -387,11 +387,16 @@ func (h *vHist) saveLoad() error {
 // observeRepo renders everything the repository reports about the submitted headers and the best
 // chain as a canonical string (hashes are rendered as reference indices, never as digests).
 func (h *vHist) observeRepo(r *Repository) string {
+	return h.observeRepoN(r, len(h.hash))
+}
+
+// observeRepoN observes only the first n submitted headers.
+func (h *vHist) observeRepoN(r *Repository, n int) string {
 	var b bytes.Buffer
 	tip := h.indexOfHash(r.LastHash())
 	fmt.Fprintf(&b, "H%d T%d W%s|", r.Height(), tip, r.AccumulatedWork().Text(16))
-	n := r.Height()
-	for ht := 0; ht <= n; ht++ {
+	top := r.Height()
+	for ht := 0; ht <= top; ht++ {
 		hash, err := r.Hash(h.ctx, ht)
 		if err != nil || hash == nil {
 			fmt.Fprintf(&b, "h%d:ERR ", ht)
@@ -402,7 +407,7 @@ func (h *vHist) observeRepo(r *Repository) string {
 		fmt.Fprintf(&b, "h%d:%d:%t ", ht, h.indexOfHash(*hash), ok)
 	}
 	b.WriteString("|")
-	for i := range h.hash {
+	for i := 0; i < n; i++ {
 		ht := r.HashHeight(h.hash[i])
 		ch, longest, cerr := r.CheckHeader(h.ctx, h.hash[i])
 		_, gh, glongest, gerr := r.GetHeader(h.ctx, h.hash[i])
